@@ -118,6 +118,7 @@ struct ViewObs {
     empty_msgs: u64,
     repeated_tags: u64,
     finds: u64,
+    iterator_adaptors: u64,
 }
 
 fn check_view_bytes(bytes: &[u8], owned_cow: bool, obs: &mut ViewObs) -> Result<(), Fail> {
@@ -191,6 +192,45 @@ fn check_view_bytes(bytes: &[u8], owned_cow: bool, obs: &mut ViewObs) -> Result<
         if n >= 1 && pos != bytes.len() {
             return Err(f12("tiling-end", format!("values end at byte {} of {}", pos, bytes.len())));
         }
+        // The iterator through the std adaptors (nth / skip / step_by / count /
+        // last / size_hint): same pairs as indexed access, in the same order.
+        let same = |a: Option<(Tag, &[u8])>, i: usize| -> bool {
+            match (a, items.get(i)) {
+                (None, None) => true,
+                (Some((t, v)), Some((t2, v2))) => t == *t2 && v.as_ptr() == v2.as_ptr() && v.len() == v2.len(),
+                _ => false,
+            }
+        };
+        if view.iter().count() != n {
+            return Err(f12("iter-count", format!("iter().count() != {}", n)));
+        }
+        let (lo, hi) = view.iter().size_hint();
+        if lo > n || hi.map(|h| h < n).unwrap_or(false) {
+            return Err(f12("iter-size_hint", format!("iter().size_hint() = ({}, {:?}) for {} pairs", lo, hi, n)));
+        }
+        if !same(view.iter().last(), n.wrapping_sub(1)) {
+            return Err(f12("iter-last", "iter().last() is not the last pair".into()));
+        }
+        for k in [0usize, 1, n / 2, n.saturating_sub(1), n, n + 1] {
+            let mut it = view.iter();
+            if !same(it.nth(k), k) {
+                return Err(f12("iter-nth", format!("iter().nth({}) disagrees with get({}) on {} pairs", k, k, n)));
+            }
+            if !same(it.next(), k.saturating_add(1)) {
+                return Err(f12("iter-nth-next", format!("next() after nth({}) is not pair {} (of {})", k, k + 1, n)));
+            }
+            let skipped: Vec<(Tag, &[u8])> = view.iter().skip(k).take(n + 2).collect();
+            if skipped.len() != n.saturating_sub(k) || skipped.iter().enumerate().any(|(j, x)| !same(Some(*x), k + j)) {
+                return Err(f12("iter-skip", format!("iter().skip({}) does not yield pairs {}.. of {}", k, k, n)));
+            }
+        }
+        for step in [2usize, 3] {
+            let stepped: Vec<(Tag, &[u8])> = view.iter().step_by(step).take(n + 2).collect();
+            if stepped.len() != n.div_ceil(step) || stepped.iter().enumerate().any(|(j, x)| !same(Some(*x), j * step)) {
+                return Err(f12("iter-step_by", format!("iter().step_by({}) does not yield every {}th pair of {}", step, step, n)));
+            }
+        }
+        obs.iterator_adaptors += 1;
         for i in [n, n + 1, 2 * n, 2 * n + 1, usize::MAX, usize::MAX - 1] {
             if i < n {
                 continue;
@@ -212,7 +252,7 @@ fn check_view_bytes(bytes: &[u8], owned_cow: bool, obs: &mut ViewObs) -> Result<
         probes.truncate(64);
         for t in probes {
             let candidates: Vec<&[u8]> = exp.iter().filter(|e| e.0 == t).map(|e| &bytes[e.1.clone()]).collect();
-            let got = view.find(Tag::new_from_u32(t));
+            let got = view.find(mk_tag(t));
             let got_idx = view.find_tag(t);
             obs.finds += 1;
             match (got, candidates.is_empty()) {
@@ -243,12 +283,12 @@ fn check_view_bytes(bytes: &[u8], owned_cow: bool, obs: &mut ViewObs) -> Result<
                 }
             }
         }
-        if !view.tags_match_exactly(etags.iter().map(|t| Tag::new_from_u32(*t))) {
+        if !view.tags_match_exactly(etags.iter().map(|t| mk_tag(*t))) {
             return Err(f12("tags_match_exactly", "tags_match_exactly(own tags) is false".into()));
         }
         let mut other = etags.clone();
         other.push(7);
-        if view.tags_match_exactly(other.iter().map(|t| Tag::new_from_u32(*t))) {
+        if view.tags_match_exactly(other.iter().map(|t| mk_tag(*t))) {
             return Err(f12("tags_match_exactly", "tags_match_exactly(own tags + one) is true".into()));
         }
         Ok(())
@@ -293,6 +333,25 @@ enum SinkKind {
 }
 
 const TAG_POOL: [u32; 12] = [0, 1, 2, 3, 5, 0x0100_0000, 0x0000_0002, 0x0001_0000, 0x544f_4f52, 0x0047_4953, u32::MAX, u32::MAX - 1];
+
+/// Builds the tag with little-endian value `t` through one of the six public
+/// constructors / conversions (they are documented as equivalent) and checks
+/// every way of reading it back.
+fn mk_tag(t: u32) -> Tag {
+    let b = t.to_le_bytes();
+    let tag: Tag = match (t ^ (t >> 7) ^ (t >> 19)) % 6 {
+        0 => Tag::new_from_u32(t),
+        1 => Tag::new(&b),
+        2 => t.into(),
+        3 => (&t).into(),
+        4 => b.into(),
+        _ => (&b).into(),
+    };
+    if tag.bytes != b || tag.value() != t || u32::from(tag) != t || u32::from(&tag) != t {
+        panic!("TAG-CONVERSION: a Tag built from {:#010x} reads back as bytes {:?} / value {:#010x}", t, tag.bytes, tag.value());
+    }
+    tag
+}
 
 fn gen_tags(rng: &mut Rng, n: usize) -> Vec<u32> {
     let small_universe = rng.chance(2, 3);
@@ -415,7 +474,7 @@ where
         }
     }
     for (t, _) in sorted.iter() {
-        let got = view.find(Tag::new_from_u32(*t));
+        let got = view.find(mk_tag(*t));
         let ok = sorted.iter().any(|(t2, v2)| t2 == t && Some(&v2[..]) == got);
         if !ok {
             return Err(f11("view-find", format!("find({}) does not return a value that was stored under that tag", t)));
@@ -457,7 +516,7 @@ fn run_c11_case(rng: &mut Rng, kind: Kind, ctor: Ctor, sink: SinkKind, n: usize,
     match kind {
         Kind::Bytes => {
             let plain: Vec<(u32, Vec<u8>)> = tags.iter().copied().zip(values.iter().cloned()).collect();
-            let entries: Vec<(Tag, &[u8])> = plain.iter().map(|(t, v)| (Tag::new_from_u32(*t), &v[..])).collect();
+            let entries: Vec<(Tag, &[u8])> = plain.iter().map(|(t, v)| (mk_tag(*t), &v[..])).collect();
             check_wrapper(entries, &plain, ctor, sink, vobs)?;
         }
         Kind::Str => {
@@ -471,7 +530,7 @@ fn run_c11_case(rng: &mut Rng, kind: Kind, ctor: Ctor, sink: SinkKind, n: usize,
             let entries: Vec<(Tag, Cow<'_, [u8]>)> = plain
                 .iter()
                 .enumerate()
-                .map(|(i, (t, v))| (Tag::new_from_u32(*t), if i % 2 == 0 { Cow::Borrowed(&v[..]) } else { Cow::Owned(v.clone()) }))
+                .map(|(i, (t, v))| (mk_tag(*t), if i % 2 == 0 { Cow::Borrowed(&v[..]) } else { Cow::Owned(v.clone()) }))
                 .collect();
             check_wrapper(entries, &plain, ctor, sink, vobs)?;
         }
@@ -482,7 +541,7 @@ fn run_c11_case(rng: &mut Rng, kind: Kind, ctor: Ctor, sink: SinkKind, n: usize,
                 .iter()
                 .zip(strs.iter())
                 .enumerate()
-                .map(|(i, (t, s))| (Tag::new_from_u32(*t), if i % 2 == 1 { Cow::Borrowed(&s[..]) } else { Cow::Owned(s.clone()) }))
+                .map(|(i, (t, s))| (mk_tag(*t), if i % 2 == 1 { Cow::Borrowed(&s[..]) } else { Cow::Owned(s.clone()) }))
                 .collect();
             check_wrapper(entries, &plain, ctor, sink, vobs)?;
         }
@@ -500,7 +559,7 @@ fn run_c11_case(rng: &mut Rng, kind: Kind, ctor: Ctor, sink: SinkKind, n: usize,
             let mut entries: Vec<(Tag, MessageView<'_>)> = Vec::new();
             for (t, m) in tags.iter().zip(inner_msgs.iter()) {
                 let v = MessageView::new(Cow::Borrowed(&m[..])).map_err(|e| f11("inner-view", e.to_string()))?;
-                entries.push((Tag::new_from_u32(*t), v));
+                entries.push((mk_tag(*t), v));
             }
             check_wrapper(entries, &plain, ctor, sink, vobs)?;
         }
@@ -515,7 +574,7 @@ fn run_c11_case(rng: &mut Rng, kind: Kind, ctor: Ctor, sink: SinkKind, n: usize,
                 .collect();
             let inner_wrappers: Vec<MessageWrapper<'_, '_, &[u8]>> = inner_plain
                 .iter()
-                .map(|p| MessageWrapper::new(p.iter().map(|(t, v)| (Tag::new_from_u32(*t), &v[..])).collect()))
+                .map(|p| MessageWrapper::new(p.iter().map(|(t, v)| (mk_tag(*t), &v[..])).collect()))
                 .collect::<Result<_, _>>()
                 .map_err(|e| f11("rejects-valid", format!("inner constructor rejected: {}", e)))?;
             for (w, p) in inner_wrappers.iter().zip(inner_plain.iter()) {
@@ -595,7 +654,7 @@ fn claim_expected_ok(lens: &[usize]) -> bool {
 fn run_claim_case(lens: &[usize], tags: &[u32], ctor: Ctor) -> Result<bool, Fail> {
     let want = claim_expected_ok(lens);
     let sorted_ok = tags.windows(2).all(|w| w[0] <= w[1]);
-    let mut entries: Vec<(Tag, Claim)> = tags.iter().zip(lens.iter()).map(|(t, l)| (Tag::new_from_u32(*t), Claim(*l))).collect();
+    let mut entries: Vec<(Tag, Claim)> = tags.iter().zip(lens.iter()).map(|(t, l)| (mk_tag(*t), Claim(*l))).collect();
     let got = match ctor {
         Ctor::New => MessageWrapper::new(entries).map(|w| w.rough_tlv_len()),
         Ctor::FromSlice => MessageWrapper::new_from_slice(&mut entries[..]).map(|w| w.rough_tlv_len()),
@@ -908,6 +967,7 @@ fn record_view(ctx: &mut Ctx, obs: &ViewObs) {
     ctx.feature_n("tlv.c12.accepted_empty_messages", obs.empty_msgs);
     ctx.feature_n("tlv.c12.lookups_of_repeated_tags", obs.repeated_tags);
     ctx.feature_n("tlv.c12.tag_lookups", obs.finds);
+    ctx.feature_n("tlv.c12.iterator_adaptors_compared_with_indexed_access", obs.iterator_adaptors);
 }
 
 pub fn run_c12(ctx: &mut Ctx) {
